@@ -37,7 +37,7 @@ def opOfJson (j : Json) : Option Op :=
 def progOfJson (j : Json) : Prog :=
   { ops := (getArr j "ops").filterMap opOfJson
     ret := match getStr j "ret" with
-      | "null" => .null | "scalar" => .scalar | "array" => .array | "fresh" => .fresh | "nan" => .bad ":nan" | "cyclic" => .bad ":cycle" | "getter" => .bad ":getter" | _ => .bs
+      | "null" => .null | "nilexe" => .null | "scalar" => .scalar | "array" => .array | "fresh" => .fresh | "nan" => .bad ":nan" | "cyclic" => .bad ":cycle" | "getter" => .bad ":getter" | _ => .bs
     native := getStr j "lang" == "native"
     partialOnFail := getBool j "partial" }
 
